@@ -20,6 +20,12 @@ func runStream(name string, args []string) {
 		streamHt(o)
 	case "http":
 		streamHTTP(o)
+	case "reg":
+		streamReg(o)
+	case "cb":
+		streamCb(o)
+	case "keys":
+		streamKeys(o)
 	case "index":
 		streamIndex(o)
 	case "trie":
